@@ -190,6 +190,32 @@ def pick_req_id(i):
     return -5
 
 
+def pick_client_info(i):
+    """shapes of clientInfo a client may send: the session records it as sent"""
+    if i == 0:
+        return {"name": "cli", "version": "9"}
+    if i == 1:
+        return {"name": "cli", "version": "9", "title": None}
+    if i == 2:
+        return {"name": "", "version": "0"}
+    if i == 3:
+        return {"name": "cli", "version": "9", "x": {"a": None, "b": [], "c": {}}, "n": 0, "f": False, "e": ""}
+    if i == 4:
+        return {"name": "100% {0} $x", "version": "1.0\n", "_meta": {"k": None}}
+    return {}
+
+
+CI = [0]
+
+
+def handler_step_ci(op, n, created, last, now, d1, t, idsel, ci):
+    CI[0] = ci
+    try:
+        return handler_step(op, n, created, last, now, d1, t, idsel)
+    finally:
+        CI[0] = 0
+
+
 def handler_step(op, n, created, last, now, d1, t, idsel=0, tid=None):
     """initialize / request-with-session-id through the protocol handler"""
     _ctr[0] = 0
@@ -201,7 +227,7 @@ def handler_step(op, n, created, last, now, d1, t, idsel=0, tid=None):
     tid = _target(n, t) if tid is None else tid
     if op == "initialize" or op == "initialize_sid":
         msg = JM.JSONRPCMessage(jsonrpc="2.0", id=pick_req_id(idsel), method="initialize",
-                                params={"protocolVersion": "2025-03-26", "clientInfo": {"name": "cli", "version": "9"}, "capabilities": {}})
+                                params={"protocolVersion": "2025-03-26", "clientInfo": pick_client_info(CI[0]), "capabilities": {}})
         # a (re-)initialize may arrive on a connection that already carries a session id - live or not
         resp, sid = drive(h.handle_message(msg, tid if op == "initialize_sid" else None))
         if resp is None or sid is None:
@@ -219,7 +245,7 @@ def handler_step(op, n, created, last, now, d1, t, idsel=0, tid=None):
         ans = (d.get("result") or {}).get("protocolVersion")
         if rec[4] != ans:
             return "initialize:session-version-differs-from-answer"
-        if rec[3] != {"name": "cli", "version": "9"}:
+        if not same_json(rec[3], pick_client_info(CI[0])):
             return "initialize:client-info-not-recorded"
     elif op in ("request", "request_unknown", "notification_unknown", "request_failing"):
         if op == "request":
